@@ -17,7 +17,7 @@ pub fn prop() -> Prop {
         rule: "(a) the full table of < <= > >= = != over a 99-text universe (with -0, -0.0 next to 0, 0.0, and objects that differ only in member order, for which only the order axioms are required) of all types (equal-by-value spellings, numbers |n|<2^53 or non-integral) through the real functions, then totality, antisymmetry w.r.t. =, transitivity over all triples, congruence of =, agreement with the documented order; (b) --sort-by on all streams of <=5 (thorough <=7) rows {k,v,id} over the keys {\"b\",\"a\",2,null,absent} x 20 key/direction configurations (three of them repeat a selection with another direction) (1..3 keys; omitted/ASC/DESC/asc/Desc; `=` and blank separators), all streams of <=4 (thorough <=5) rows over 16 keys of all types (0 and -0 among them) in both directions, and long streams with >11 distinct keys and >8 rows per key; (c) sort, sort_unique, sort_by, sort_by_keys, sort_by_values, sort_by_values_by on all lists/objects of <=5 (thorough <=6) elements over an 8-value universe, and on lists/objects of 20..100 elements with distinguishable ties; non-trivial = the input holds a tie between distinguishable rows, an absent key or two types; distinct by construction",
         explanation: "rows carry ids, so permutation, stability and multi-key order are observable; the output is compared with the reference pipeline (stable lexicographic insertion sort under the documented order) and, independently, checked to be a permutation of the sortable rows in which tied neighbours keep arrival order",
         assumptions: COMMON_ASSUMPTIONS.to_vec(),
-        guards: vec!["tie-between-distinguishable-rows", "absent-key-dropped", "mixed-types", "three-keys", "desc", "more-than-11-distinct-keys", "more-than-8-rows-per-key", "order-table-complete", "function-sorts-with-ties"],
+        guards: vec!["command-line-respelled", "tie-between-distinguishable-rows", "absent-key-dropped", "mixed-types", "three-keys", "desc", "more-than-11-distinct-keys", "more-than-8-rows-per-key", "order-table-complete", "function-sorts-with-ties"],
         budget_s: (100, 2400),
         single_worker: false,
         run,
@@ -196,7 +196,7 @@ fn key_tuple(sc: &SortCfg, row: &V) -> Result<Option<Vec<V>>, eval::Taint> {
 fn check_sort(ctx: &mut Ctx, sc: &SortCfg, rows: &[V]) {
     let (cfg, args) = cfg_of(sc);
     let case = Case::owned(args, crate::refmodel::pipeline::input_text(rows));
-    let (_, out) = pipe::run_rows(ctx, &case, sc.name);
+    let (_, out) = pipe::run_rows_respelled(ctx, &case, sc.name);
     ctx.case_done();
     ctx.trace_validated();
     let got = match out {
